@@ -1,0 +1,73 @@
+//go:build verif
+
+package cpr
+
+import (
+	"fmt"
+	"os"
+	"runtime"
+	"strconv"
+	"sync"
+	"time"
+)
+
+// Verification hooks (build tag `verif`).
+//
+// KNUT_VERIF_SEED=<n>   perturb the goroutine schedule pseudo-randomly at every
+//                       Push and Pop (yield or short sleep), derived from n.
+// KNUT_VERIF_TRACE=<f>  append one line per pipeline event of Seq to file f:
+//                       "<event> <stage>", in a global order consistent with
+//                       happens-before.
+var (
+	hookMu    sync.Mutex
+	hookState uint64
+	hookOn    bool
+	hookFile  *os.File
+)
+
+func init() {
+	if s := os.Getenv("KNUT_VERIF_SEED"); s != "" {
+		if n, err := strconv.ParseUint(s, 10, 64); err == nil {
+			hookState = n*0x9E3779B97F4A7C15 + 1
+			hookOn = true
+		}
+	}
+	if p := os.Getenv("KNUT_VERIF_TRACE"); p != "" {
+		if f, err := os.OpenFile(p, os.O_APPEND|os.O_CREATE|os.O_WRONLY, 0o644); err == nil {
+			hookFile = f
+		}
+	}
+}
+
+func hookNext() uint64 {
+	hookMu.Lock()
+	defer hookMu.Unlock()
+	// splitmix64
+	hookState += 0x9E3779B97F4A7C15
+	z := hookState
+	z = (z ^ (z >> 30)) * 0xBF58476D1CE4E5B9
+	z = (z ^ (z >> 27)) * 0x94D049BB133111EB
+	return z ^ (z >> 31)
+}
+
+func hookYield() {
+	if !hookOn {
+		return
+	}
+	r := hookNext()
+	switch r % 8 {
+	case 0:
+		time.Sleep(time.Duration((r>>8)%200) * time.Microsecond)
+	case 1, 2, 3:
+		runtime.Gosched()
+	}
+}
+
+func hookTrace(event string, stage int) {
+	if hookFile == nil {
+		return
+	}
+	hookMu.Lock()
+	defer hookMu.Unlock()
+	fmt.Fprintf(hookFile, "%s %d\n", event, stage)
+}
